@@ -203,7 +203,7 @@ Qed.
 Lemma get_calc_upd p p' f st :
   get_calc p (upd_calc p' f st) = if p' =? p then f (get_calc p' st) else get_calc p st.
 Proof.
-  unfold get_calc, upd_calc, set_calc. cbn [g_calcs]. rewrite afind_aset.
+  unfold get_calc, upd_calc, set_calc, remake. cbn [g_calcs]. rewrite afind_aset.
   destruct (p' =? p); reflexivity.
 Qed.
 
